@@ -30,6 +30,7 @@ class Target:
         self.log = []
         self.anomalies = []
         self.faults = {}
+        self.unsupported = set()  # command names this (still conformant) logical unit does not implement
         self.n = 0
 
     # -- helpers ----------------------------------------------------------
@@ -73,6 +74,8 @@ class Target:
             rec["name"] = "unsupported"
             return CHECK, self.sense(5, 0x20)
         rec["name"] = c.name
+        if c.name in self.unsupported:
+            return CHECK, self.sense(5, 0x20)
         f = {k: R.get(cdb, *pos) for k, pos in c.fields.items()}
         rec["fields"] = f
         mask = R.mask_bytes(c.length, list(c.fields.values()) + [(0, 7, 8)])
